@@ -28,4 +28,28 @@ SPECS = {
         "real": REAL_ON,
         "stub": STUB_MDP,
     },
+    "C03": {
+        "scenarios": [{"name": "collect_on", "runs": {"quick": 300, "thorough": 1000000}, "chunks": {"quick": 2, "thorough": 2}}],
+        "budget_s": {"quick": 600, "thorough": 1200},
+        "rule": "one evaluation = one seeded simulated run of reset + 1..4 real on-policy iterations; RefGAE (the definition in the statement, "
+        "float64) is evaluated per node over the rewards/values/dones the pipeline recorded, with the bootstrap value read from the table "
+        "at the carried post-rollout state; non-trivial = a done pattern (any episode-end event) fired in the run; distinct = distinct "
+        "(shape class, set of fired event kinds with bucketed counts)",
+        "assumptions": [
+            "formula-level content is decided only on histories the simulated system produces (T<=16, nodes<=4, gamma/lambda from a fixed grid incl. 0 and 1)",
+            "float32 vs float64 tolerance 2e-5*T*scale",
+        ],
+        "real": REAL_ON,
+        "stub": STUB_MDP,
+    },
+    "C19": {
+        "scenarios": [{"name": "collect_on", "runs": {"quick": 300, "thorough": 1000000}, "chunks": {"quick": 2, "thorough": 2}}],
+        "budget_s": {"quick": 600, "thorough": 1200},
+        "rule": "one evaluation = one seeded simulated run; the real LoggingCallback step logic runs inside the real collection loop; after every "
+        "iteration each node's logger state is compared with RefLogger fed with the TRUE environment rewards and flags derived by RefMDP from the "
+        "recorded chain; non-trivial = an episode end fired; distinct = distinct (shape class, fired event kinds)",
+        "assumptions": ["true rewards are those of the SimMDP tables for the recorded (state, clipped action, successor)"],
+        "real": REAL_ON,
+        "stub": STUB_MDP,
+    },
 }
